@@ -204,7 +204,9 @@ Definition obs_list (l : list signer) : obs :=
   | Panic => OL [OZ 2]
   end.
 
-(* lists are (party, (key index, stake)) *)
+(* lists are (party, (key index, stake)); the last component is the harness's
+   "all code paths computed the same key" flag, which is true by construction here
+   (one function) *)
 Definition run (keys : list N) (lists : list (list (N * (N * N)))) : obs :=
   let ls := map (mk_signers keys) lists in
-  OL [OLN (eq_pattern (map (fun l => avk_term (compute_avk l)) ls)); OL (map obs_list ls)].
+  OL [OLN (eq_pattern (map (fun l => avk_term (compute_avk l)) ls)); OL (map obs_list ls); OZ 1].
